@@ -133,6 +133,9 @@ pub struct Label {
     pub name: String,
     pub zone: Zone,
     pub ftype: u32,
+    /// link body, for symlinks (bodies are unique per world, so a returned
+    /// body can be attributed to the link it was read from)
+    pub body: Option<Vec<u8>>,
 }
 
 pub type Ino = (u64, u64);
@@ -176,7 +179,7 @@ impl World {
         sys::mkdirat(libc::AT_FDCWD, TOP.as_bytes(), 0o755).map_err(|e| format!("mkdir top: {e}"))?;
         let st = sys::lstat(TOP.as_bytes()).map_err(|e| format!("stat top {e}"))?;
         let mut w = World { labels: BTreeMap::new(), dev: st.st_dev, root_ino: (0, 0), created_seq: 0 };
-        w.labels.insert((st.st_dev, st.st_ino), Label { name: "".into(), zone: Zone::Outside, ftype: libc::S_IFDIR });
+        w.labels.insert((st.st_dev, st.st_ino), Label { name: "".into(), zone: Zone::Outside, ftype: libc::S_IFDIR, body: None });
         let mut spec2 = spec.clone();
         if !spec2.has("root") {
             spec2.entries.insert(0, Entry::dir("root"));
@@ -240,7 +243,9 @@ impl World {
                     }
                 }
                 None => {
-                    self.labels.insert(key, Label { name: rel.to_string(), zone, ftype: st.st_mode & libc::S_IFMT });
+                    let ftype = st.st_mode & libc::S_IFMT;
+                    let body = if ftype == libc::S_IFLNK { sys::readlinkat(libc::AT_FDCWD, &abs(rel)).ok() } else { None };
+                    self.labels.insert(key, Label { name: rel.to_string(), zone, ftype, body });
                 }
             }
         }
@@ -254,7 +259,7 @@ impl World {
                 }
             }
             None => {
-                self.labels.insert(key, Label { name, zone, ftype });
+                self.labels.insert(key, Label { name, zone, ftype, body: None });
             }
         }
     }
